@@ -104,7 +104,9 @@ Definition check_binary (o : op) (t1 t2 : tinfo) : eres :=
           let to_bool := is_cmp_op o || (match o with OAnd | OOr => true | _ => false end) in
           let c' := if negb u1 && negb to_bool then repr k1 c else Ok c in
           let k := if to_bool then KBool
-                   else if negb shift && u1 && (kind_num k1 <? kind_num k2) then k2 else k1 in
+                   else if negb shift && u1 && (kind_num k1 <? kind_num k2) then k2
+                   else if shift && u1 && negb (is_integer_kind k1) then KInt
+                   else k1 in
           lift k (u1 || is_cmp_op o) c'
         end
     end.
